@@ -39,6 +39,9 @@ pub struct CbConfig {
     #[serde(default)]
     pub idle_slow_rate10: Option<u8>,
     pub custom_classifier: bool,
+    /// install the custom classifier on the builder before the other settings instead of after
+    #[serde(default)]
+    pub classifier_first: bool,
 }
 
 #[derive(Clone, Debug, Serialize, Deserialize, PartialEq)]
@@ -89,7 +92,7 @@ pub fn config_strategy() -> BoxedStrategy<CbConfig> {
         prop_oneof![Just(20u64), 20u64..=200],
         prop_oneof![1 => Just(None), 1 => (5u64..=40, 0u8..=10).prop_map(Some)],
         any::<bool>(),
-        (prop_oneof![2 => Just(None), 1 => (0u8..=10).prop_map(Some)], prop_oneof![12 => Just(0u8), 1 => 1u8..=3]),
+        (prop_oneof![2 => Just(None), 1 => (0u8..=10).prop_map(Some)], prop_oneof![12 => Just(0u8), 1 => 1u8..=3], any::<bool>()),
     )
         .prop_map(
             |(
@@ -102,7 +105,7 @@ pub fn config_strategy() -> BoxedStrategy<CbConfig> {
                 wait_ms,
                 slow,
                 custom_classifier,
-                (idle_slow_rate10, wait_huge),
+                (idle_slow_rate10, wait_huge, classifier_first),
             )| {
                 CbConfig {
                     time_based,
@@ -116,6 +119,7 @@ pub fn config_strategy() -> BoxedStrategy<CbConfig> {
                     custom_classifier,
                     idle_slow_rate10: if slow.is_some() { None } else { idle_slow_rate10 },
                     wait_huge,
+                    classifier_first,
                 }
             },
         )
@@ -366,9 +370,12 @@ pub struct Verdict {
 
 pub fn run_case(case: &CbCase) -> Verdict {
     if case.cfg.custom_classifier {
-        let layer = builder(&case.cfg)
-            .failure_classifier(custom_classifier as fn(&Result<Resp, SErr>) -> bool)
-            .build();
+        let f = custom_classifier as fn(&Result<Resp, SErr>) -> bool;
+        let layer = if case.cfg.classifier_first {
+            apply_settings(CircuitBreakerLayer::builder().failure_classifier(f), &case.cfg).build()
+        } else {
+            builder(&case.cfg).failure_classifier(f).build()
+        };
         sim::run_case(interp(case, move |inner| layer.layer_fn(inner)))
     } else {
         let layer = builder(&case.cfg).build();
@@ -388,8 +395,17 @@ pub fn wait_duration(c: &CbConfig) -> Duration {
 pub fn builder(
     c: &CbConfig,
 ) -> tower_resilience_circuitbreaker::CircuitBreakerConfigBuilder {
+    apply_settings(CircuitBreakerLayer::builder(), c)
+}
+
+/// Applies every setting of `c` to a builder of any classifier type, so that the classifier can
+/// be installed before or after them (the type-changing setter copies the fields over).
+pub fn apply_settings<C>(
+    b: tower_resilience_circuitbreaker::CircuitBreakerConfigBuilder<C>,
+    c: &CbConfig,
+) -> tower_resilience_circuitbreaker::CircuitBreakerConfigBuilder<C> {
     let half = Duration::from_micros(500);
-    let mut b = CircuitBreakerLayer::builder()
+    let mut b = b
         .failure_rate_threshold(c.thr20 as f64 / 20.0)
         .sliding_window_size(c.size)
         .permitted_calls_in_half_open(c.permitted)
